@@ -148,6 +148,20 @@ theorem C10_cook_values (m m' : Message) (bl bt : Nat) (h : m.cook Fixes.cur bl 
   · cases h
   · cases h
 
+/-- the same at the level of the whole message: after EVERY sequence of Message API operations (setters of all kinds on
+    header / body / trailer, group set, remove, clear, copy, and `build` itself, which cooks 9 and 10 and sorts the
+    order lists) each of the three sections satisfies the bookkeeping invariant and keeps its own comparator -/
+theorem C10_message_invariant (ops : List MOp) (m : Message) (h : runMOps ops Message.new = .ok m) : MInv m :=
+  runMOps_inv ops _ m MInv.new h
+
+/-- "all header fields before all body fields before all trailer fields": the bytes of `build` are the header's bytes,
+    then the body's, then the trailer's, each written from the cooked message's maps (so each of the section-level
+    theorems above applies to its part) -/
+theorem C10_build_sections (m : Message) (hm : MInv m) (bytes : Bytes) (m' : Message) (h : m.build Fixes.cur = .ok (bytes, m')) :
+    MInv m' ∧ ∃ m1, m.cook Fixes.cur (m.body.length m.fields) (m.body.total m.fields) = .ok m1 ∧ MInv m1 ∧
+      bytes = (m1.header.write m1.fields).1 ++ (m1.body.write m1.fields).1 ++ (m1.trailer.write m1.fields).1 :=
+  hm.build bytes m' h
+
 /-! ## the unchanged code (witnesses, replayed on the implementation by the correspondence: known_findings.json `fixed`) -/
 
 /-- D5: with the ORIGINAL `Remove` the order list keeps the removed tag, so `Remove(t); Set(t)` lists `t` twice -/
@@ -185,7 +199,7 @@ example : ∃ m, runFOps [.set (TagValue.init 58 [97]), .remove 58, .set (TagVal
    "every field currently set exactly once … no removed field"   C10_invariant, C10_write_each_once, C10_remove_gone
    "with its latest value"                                         C10_set_latest
    "BeginString, BodyLength and MsgType first"                     C10_header_first3 (order list) + C10_write_each_once
-   "header before body before trailer"                             Message.writeAll is hb ++ bb ++ tb by definition
+   "header before body before trailer"                             C10_build_sections, C10_message_invariant
    "CheckSum last"                                                 C10_trailer_checksum_last
    "BodyLength equals the byte count … CheckSum equals the sum"    C10_length_total_accounting, C10_cook_values
    "Parsing those bytes yields the same fields and values"         C10_parse_build_full (monitor clause reparse_ok / reparse_same_fields)
